@@ -219,7 +219,8 @@ func (s *scanner) scanner(store *stor.Stor) {
 			break
 		}
 		buf := store.Data(off)
-		if string(buf[magic2at:magic2at+len(magic2)]) != magic2 {
+		if len(buf) < stateLen ||
+			string(buf[magic2at:magic2at+len(magic2)]) != magic2 {
 			continue
 		}
 		s.lock.Lock()
